@@ -278,7 +278,7 @@ func (c *Check) popShape(fn *ssa.Function, fields []string, caps map[string]int6
 	// --- both Sets on every success path that emitted ---
 	qOK := regexp.MustCompile(lit("(EthTxQueue.Set(EthTxQueue.Get()#0) == nil)"))
 	nOK := regexp.MustCompile(`^\(EthTxNonce\.Set\(.*\) == nil\)$`)
-	emptyTxs := regexp.MustCompile(`^\(len\(φ\{append.*\}\) <= 0\)$`)
+	emptyTxs := regexp.MustCompile(`^\(0 == len\(φ\{.*append.*\}\)\)$`)
 	for _, e := range emits {
 		for name, re := range map[string]*regexp.Regexp{"queue-stored-after-emit": qOK, "nonce-stored-after-emit": nOK} {
 			avoid := edgeSet(p.MatchEdges(fn, re))
@@ -408,13 +408,13 @@ func propC06(c *Check) {
 						okEdges++
 					}
 				}
-				ok = okEdges == len(ph.Edges) && p.R(nb).E(sa.Args[1]) == "$2.BlockHash[(1 + φ{-1|@})]"
+				ok = okEdges == len(ph.Edges) && p.R(nb).E(sa.Args[1]) == "$2.BlockHash[φ{(1 + @)|0}]"
 			}
 		}
 		if ok {
 			c.Held("R3", "consecutive-heights @ "+FuncKey(nb), p.InstrPos(hs), "BlockHashes.Set(h+1, hash[i]) with h = tip, tip+1, …; BlockTip.Set(last h)")
 			c.RequireFact(nb, "R3", "tip-stored", `^\(BlockTip\.Set\(.*\) == nil\)$`, nil, "")
-			c.RequireFact(nb, "R3", "all-hashes-visited", lit("(len($2.BlockHash) <= (1 + φ{-1|@}))"), nil, "")
+			c.RequireFact(nb, "R3", "all-hashes-visited", lit("(len($2.BlockHash) <= φ{(1 + @)|0})"), nil, "")
 		} else {
 			c.Violated("R3", "consecutive-heights @ "+FuncKey(nb), p.Pos(nb.Pos()), "hashes are not stored at tip+1, tip+2, … with the tip set to the last height reason=not-established")
 		}
@@ -456,7 +456,7 @@ func propC06(c *Check) {
 	c.RequireFact(vdq, "R4", "locking-dequeue-ok", lit("(LockingKeeper.DequeueLockingModuleTx()#1 == nil)"), nil, "")
 	btc := "BitcoinKeeper.DequeueBitcoinModuleTx()#0"
 	lck := "LockingKeeper.DequeueLockingModuleTx()#0"
-	i := "(1 + φ{-1|@})"
+	i := "φ{(1 + @)|0}"
 	c.RequireFact(vdq, "R4", "all-btc-visited", lit("(len("+btc+") <= "+i+")"), nil, "")
 	c.RequireFact(vdq, "R4", "all-locking-visited", lit("(len("+lck+") <= "+i+")"), nil, "")
 	// each iteration's count decrement is reached only through the byte-equality edge
@@ -475,7 +475,7 @@ func propC06(c *Check) {
 		c.RequireFact(vdq, "R4", "btc-bytes-equal", lit("bytes.Equal(Transaction.MarshalBinary("+btc+"["+i+"])#0, $3["+i+"])"), instrSet(decs[:1]), "next bridge tx")
 		c.RequireFact(vdq, "R4", "locking-bytes-equal", lit("bytes.Equal(Transaction.MarshalBinary("+lck+"["+i+"])#0, $3[len("+btc+"):]["+i+"])"), instrSet(decs[1:]), "next locking tx")
 	}
-	c.RequireFact(vdq, "R4", "count-reaches-zero", lit(EQ("0", "φ{(@ - 1)|φ{$2[0]|(@ - 1)}}")), nil, "")
+	c.RequireFact(vdq, "R4", "count-reaches-zero", lit(EQ("0", "φ{$2[0]|(@ - 1)}")), nil, "")
 	// order agreement with Dequeue: bitcoin first, then locking, in both
 	for _, f := range []*ssa.Function{dq, vdq} {
 		b := p.FindCalls(f, `^BitcoinKeeper\.DequeueBitcoinModuleTx\(`)
